@@ -1,8 +1,10 @@
 package sim
 
 import (
+	"bytes"
 	"fmt"
 	"runtime"
+	"runtime/debug"
 	"strconv"
 	"sync"
 	"time"
@@ -96,6 +98,7 @@ type client struct {
 	batch    int
 	panicMsg string
 	hangOp   bool
+	inflight bool
 }
 
 // Sched is the serialising scheduler. Exactly one client goroutine runs at a time;
@@ -228,6 +231,18 @@ func (s *Sched) AddClient(ops []OpFunc) int {
 
 // Records returns the history of client i (valid after Run).
 func (s *Sched) Records(i int) []OpRecord { return s.clients[i].recs }
+
+// InFlight returns the index of the call client i was executing when the run ended, or -1.
+//
+//go:norace
+func (s *Sched) InFlight(i int) int {
+	c := s.clients[i]
+	if c.inflight {
+		return c.curOp
+	}
+
+	return -1
+}
 
 // Seq returns the global event counter.
 func (s *Sched) Seq() uint64 { return s.seq }
@@ -544,6 +559,7 @@ func (s *Sched) clientMain(c *client, done chan<- int) {
 		c.req = reqNone
 		s.seq++
 		inv := s.seq
+		c.inflight = true
 		out, panicked := runOp(c.ops[i])
 		s.seq++
 		s.finishOp(c, i, inv, out, panicked)
@@ -553,6 +569,8 @@ func (s *Sched) clientMain(c *client, done chan<- int) {
 
 			return
 		}
+
+		c.inflight = false
 	}
 }
 
@@ -577,7 +595,7 @@ func runOp(op OpFunc) (out string, panicked bool) {
 	defer func() {
 		if r := recover(); r != nil {
 			panicked = true
-			out = "panic:" + fmt.Sprint(r)
+			out = "panic:" + fmt.Sprint(r) + panicSite(debug.Stack())
 		}
 	}()
 
@@ -872,4 +890,20 @@ func (s *Sched) choose(r []int, step int) int {
 	s.Decisions = append(s.Decisions, uint8(pick))
 
 	return pick
+}
+
+// panicSite extracts the innermost avfs function from a stack trace.
+func panicSite(stack []byte) string {
+	for _, line := range bytes.Split(stack, []byte("\n")) {
+		if bytes.HasPrefix(line, []byte("github.com/avfs/avfs")) {
+			l := string(line)
+			if i := bytes.LastIndexByte(line, '('); i > 0 {
+				l = l[:i]
+			}
+
+			return " @" + l[len("github.com/avfs/avfs"):]
+		}
+	}
+
+	return ""
 }
